@@ -9,6 +9,7 @@ func runC13(c *Ctx) {
 	sch := exportSchema()
 	c.Assume = []string{
 		"the Contract (FitRef!Step: defs[l] replaced by Definition(l), looked up by Data(l)) is the reference; TLC evaluates it",
+		"independence streams: a disagreement counts against C13 if the same stream without the records of one local type (definitions without fields, with developer fields only, ... for messages the file does not hold) agrees with the Contract",
 		"attribution: a value disagreement counts against C13 only if the same record decodes correctly in the control stream, where every data record directly follows its own definition on local type 0",
 	}
 	rng := newRng(c.Seed)
@@ -102,6 +103,77 @@ func runC13(c *Ctx) {
 			pair[a.ID] = b.ID
 		}
 	}
+	// independence: one local type (A) is defined and redefined in every
+	// shape a definition can take - no fields at all, developer fields only,
+	// long field lists, either byte order - for messages the file does not
+	// hold; the records of the other local types must decode exactly as in
+	// the same stream without A
+	indep := map[int]int{} // stream call id -> id of the call on the stream without A
+	for k := 0; k < c.pick(40, 400); k++ {
+		s := newStream(12, false)
+		arch := byte(rng.Intn(2))
+		s.FileId(0, arch, 4)
+		la := 1 + rng.Intn(15)
+		lb := 1 + (la+rng.Intn(14))%15
+		if lb == la {
+			lb = 1 + la%15
+		}
+		now := uint32(0x38800000)
+		s.Def(lb, arch, 20, []FieldDef{{253, 4, 0x86}, {3, 1, 2}, {4, 1, 2}}, nil)
+		defineA := func() {
+			var fs []FieldDef
+			var dv []DevDef
+			kind := rng.Intn(5)
+			if kind >= 2 {
+				for f := 0; f < 1+rng.Intn(6); f++ {
+					fs = append(fs, FieldDef{byte(f), byte(1 + rng.Intn(3)), 0x0D})
+				}
+			}
+			if kind <= 2 || rng.Intn(3) == 0 {
+				dv = []DevDef{}
+			}
+			if kind == 1 || kind == 2 || (dv != nil && rng.Intn(2) == 0) {
+				for f := 0; f < 1+rng.Intn(3); f++ {
+					dv = append(dv, DevDef{byte(f), byte(1 + rng.Intn(5)), 0})
+				}
+			}
+			s.Def(la, byte(rng.Intn(2)), uint16(0xFF00+rng.Intn(16)), fs, dv)
+		}
+		defineA()
+		for r := 0; r < 12+rng.Intn(12); r++ {
+			switch rng.Intn(5) {
+			case 0:
+				defineA()
+			case 1, 2:
+				d := s.defs[la]
+				n := 0
+				for _, f := range d.fields {
+					n += int(f.Size)
+				}
+				for _, f := range d.dev {
+					n += int(f.Size)
+				}
+				pl := make([]byte, n)
+				for i := range pl {
+					// bytes that read as record headers of the other local type if taken for one
+					pl[i] = []byte{byte(lb), byte(0x40 | lb), byte(rng.Intn(256)), 0}[rng.Intn(4)]
+				}
+				s.Data(la, pl)
+			default:
+				now += uint32(1 + rng.Intn(9))
+				s.Data(lb, append(wire(u32le(now), arch), byte(60+r), byte(rng.Intn(200))))
+			}
+		}
+		ctl := s.Without(la)
+		id++
+		a := p.runCall(id, "decode", s.Bytes(), plain, CallOpts{}, true)
+		a.Note = "independence"
+		id++
+		b := p.runCall(id, "decode", ctl.Bytes(), plain, CallOpts{}, true)
+		b.Note = "independence control"
+		calls = append(calls, a, b)
+		indep[a.ID] = b.ID
+	}
 	// the very first data record addresses a local type that was never defined
 	for _, pr := range [][2]int{{5, 3}, {0, 1}, {15, 0}, {2, 10}} {
 		for arch := byte(0); arch < 2; arch++ {
@@ -173,7 +245,17 @@ func runC13(c *Ctx) {
 			}
 		}
 	}
+	indepBad := map[int]bool{}
+	for _, m := range mm {
+		if m.Call.Note == "independence control" {
+			indepBad[m.Call.ID] = true
+		}
+	}
 	c.reportFamily(p, mm, func(m Mismatch) bool {
+		if m.Call.Note == "independence" {
+			// the same records without local type A decode as the Contract says: A's presence changed the others
+			return !indepBad[indep[m.Call.ID]]
+		}
 		if m.Call.Note != "slot reuse" {
 			return false
 		}
